@@ -2,24 +2,28 @@
 //
 // Targets
 //   attr_value              value level: list A, a re-spelling B with the same model (stable
-//                           permutation, shadowed duplicates, other API spellings), a mutation C
-//                           (retyped / tweaked value, near key, removed key ...), an allow-list L
-//                           (subset of the keys plus strangers).  Every construction path of
-//                           FilteredOrderedAttributeMap == the model map (last wins, keys not in L
-//                           removed); model-equal <=> operator==; equal => equal hashes (cached,
-//                           recomputed, both hash functors); AttributesHashMap::GetOrSetDefault
-//                           returns one aggregation for model-equal sets and two for unequal ones.
-//   instrument_series       MeterProvider + one instrument (+ one view with an attribute filter)
-//                           + 1..2 readers: Adds in many spellings, Collect cycles; the reported
-//                           series are exactly the distinct model maps with exactly their sums.
-//   storage_limits          SyncMetricStorage with an explicit cardinality limit 2..10, 1..2
-//                           delta/cumulative collectors, Records over a pool larger than the limit,
-//                           1..4 collection cycles.
+//                           permutation, shadowed duplicates, other API spellings, the sign of zero
+//                           doubles flipped), a mutation C (retyped / tweaked value, near key, removed
+//                           key ...), an allow-list L (subset of the keys plus strangers).  Every
+//                           construction path of FilteredOrderedAttributeMap == the model map (last
+//                           wins, keys not in L removed); model-equal <=> operator== <=> plain map ==;
+//                           model-equal => equal hashes (cached, recomputed, both hash functors);
+//                           AttributesHashMap::GetOrSetDefault returns one aggregation for
+//                           model-equal sets and two for unequal ones.
+//   instrument_series       MeterProvider + one instrument (one or two handles, zero..two views with
+//                           an attribute filter each) + 1..2 readers: Adds in many spellings, Collect
+//                           cycles; the reported series of every stream are exactly the distinct
+//                           model maps with exactly their sums.
+//   storage_limits          SyncMetricStorage with an explicit cardinality limit 0..10, 1..2
+//                           delta/cumulative collectors, (signed) Records over a pool larger than the
+//                           limit, allow-lists that merge raw sets, a caller-recorded overflow set,
+//                           1..4 collection cycles; plus an AttributesHashMap of the same limit driven
+//                           through each GetOrSetDefault / Set overload.
 //   provider_default_limit  the same oracle through a MeterProvider with the default limit 2000.
 //   f9_witness f10_witness f11_witness   fixed regression cases (no generator involved).
-// Oracle: reference model map (std::map, last wins, filter by exact key), per-reader running sums,
-// conservation through the overflow series; ASan/UBSan with short-lived, non NUL-terminated caller
-// storage.
+// Oracle: reference model map (std::map, last wins, filter by exact key; -0.0 == 0.0), per-reader
+// running sums, conservation through the overflow series; ASan/UBSan with short-lived, non
+// NUL-terminated caller storage.
 #include <algorithm>
 #include <chrono>
 #include <cmath>
@@ -119,8 +123,12 @@ std::string canon_map(const KVMap &m)
   return s;
 }
 
-// -0.0 -> 0.0 (is {k=0.0} "equal as a map" to {k=-0.0}?  The statement does not say: the value
-// level treats that pair as an either-way region, the series levels do not generate it)
+// -0.0 -> 0.0.  0.0 == -0.0: the two zeros are equal VALUES that are not bit-identical (the same holds
+// for the elements of a double array), so {k=0.0} and {k=-0.0} are equal as key-to-value maps: they
+// must compare equal, hash equally and meet in one series (the unchanged tree: std::hash<double>
+// maps both zeros to one value, the variant compares with ==).  The identity of a set in the model
+// is therefore the canonical text of the NORMALISED map; which of the two zeros a shared series
+// reports is not specified.  NaN (not equal to itself) is not generated.
 MValue normalized(MValue v)
 {
   if (v.index() == 5)
@@ -147,20 +155,38 @@ KVMap normalized(const KVMap &m)
   return r;
 }
 
+// the identity of an attribute set (series key of the model)
+std::string set_key(const KVMap &m)
+{
+  return canon_map(normalized(m));
+}
+
 enum class Rel
 {
   kEqual,
-  kUnequal,
-  kGray  // differ only in the sign of a zero
+  kUnequal
 };
 
 Rel relation(const KVMap &a, const KVMap &b)
 {
-  if (canon_map(a) == canon_map(b))
-    return Rel::kEqual;
-  if (canon_map(normalized(a)) == canon_map(normalized(b)))
-    return Rel::kGray;
-  return Rel::kUnequal;
+  return set_key(a) == set_key(b) ? Rel::kEqual : Rel::kUnequal;
+}
+
+// equal sets that are not bit-identical (they differ in the sign of a zero)
+bool zero_sign_differs(const KVMap &a, const KVMap &b)
+{
+  return set_key(a) == set_key(b) && canon_map(a) != canon_map(b);
+}
+
+bool is_zero_bearing(const MValue &v)
+{
+  if (v.index() == 5)
+    return std::get<5>(v) == 0.0;
+  if (v.index() == 12)
+    for (double d : std::get<12>(v))
+      if (d == 0.0)
+        return true;
+  return false;
 }
 
 // the SDK's owned value as a model value (type AND value)
@@ -413,7 +439,7 @@ void inject_shadowed(vh::Reader &rd, KVList &l)
       last = j;
   size_t pos = rd.below(static_cast<uint32_t>(last + 1));
   MValue v   = rd.coin() ? sg::gen_value(rd) : MValue(std::string("shadowed"));
-  l.insert(l.begin() + static_cast<long>(pos), std::make_pair(k, normalized(v)));
+  l.insert(l.begin() + static_cast<long>(pos), std::make_pair(k, v));
 }
 
 void drop_shadowed(KVList &l)
@@ -428,6 +454,83 @@ void drop_shadowed(KVList &l)
       out.push_back(l[i]);
   }
   l = out;
+}
+
+// ---- values that are equal but not bit-identical: the two zeros (scalar or array element)
+bool has_zero(const KVList &l)
+{
+  for (auto &kv : l)
+    if (is_zero_bearing(kv.second))
+      return true;
+  return false;
+}
+
+// a double value (scalar or array) that contains a zero; the signs come from the stream
+MValue zero_value(vh::Reader &rd)
+{
+  size_t shape = rd.weighted({4, 3, 2, 1});
+  uint8_t bits = rd.u8();
+  auto z       = [&](unsigned i) { return ((bits >> i) & 1) ? -0.0 : 0.0; };
+  switch (shape)
+  {
+    case 0:
+      return MValue(z(0));
+    case 1:
+      return MValue(std::vector<double>{1.5, z(0)});
+    case 2:
+      return MValue(std::vector<double>{z(0), z(1), 2.0, z(2)});
+    default:
+      return MValue(std::vector<double>{z(0)});
+  }
+}
+
+// make sure the list holds a zero-bearing double value (replaces the value of one entry)
+void plant_zero(vh::Reader &rd, KVList &l)
+{
+  if (l.empty())
+  {
+    l.emplace_back("k0", zero_value(rd));
+    return;
+  }
+  size_t i    = rd.below(static_cast<uint32_t>(l.size()));
+  l[i].second = zero_value(rd);
+}
+
+// flips the sign of some zeros (at least of the first one): an equal list that is not bit-identical.
+// Returns the number of zeros whose sign changed.
+unsigned flip_zero_signs(vh::Reader &rd, KVList &l)
+{
+  uint32_t mask = rd.u8();
+  if (mask == 0)
+    mask = 1;
+  unsigned n = 0, flipped = 0;
+  auto visit = [&](double &d) {
+    if (d != 0.0)
+      return;
+    if ((mask >> (n % 8)) & 1)
+    {
+      d = -d;
+      ++flipped;
+    }
+    ++n;
+  };
+  for (auto &kv : l)
+  {
+    if (kv.second.index() == 5)
+    {
+      double d = std::get<5>(kv.second);
+      visit(d);
+      kv.second = MValue(d);
+    }
+    else if (kv.second.index() == 12)
+    {
+      auto a = std::get<12>(kv.second);
+      for (auto &d : a)
+        visit(d);
+      kv.second = MValue(a);
+    }
+  }
+  return flipped;
 }
 
 template <class To, class From>
@@ -538,7 +641,7 @@ MValue tweak(vh::Reader &rd, const MValue &v)
       return MValue(std::get<4>(v) + 1u);
     case 5:
       if (std::get<5>(v) == 0.0)
-        return MValue(-std::get<5>(v));  // the other zero: an either-way pair
+        return MValue(std::copysign(4.9406564584124654e-324, std::get<5>(v)));  // the nearest unequal value
       return MValue(std::nextafter(std::get<5>(v), 1e308));
     case 6:
     {
@@ -610,12 +713,12 @@ std::string mutate(vh::Reader &rd, KVList &l)
 {
   if (l.empty())
   {
-    l.emplace_back(sg::gen_key(rd), normalized(sg::gen_value(rd)));
+    l.emplace_back(sg::gen_key(rd), sg::gen_value(rd));
     f11_sanitize(l);
     return "add-to-empty";
   }
   size_t i = rd.below(static_cast<uint32_t>(l.size()));
-  switch (rd.weighted({3, 3, 2, 2, 2, 2, 2, 1}))
+  switch (rd.weighted({3, 3, 2, 2, 2, 2, 2, 1, 2}))
   {
     case 0:
       l[i].second = retype(rd, l[i].second);
@@ -657,8 +760,17 @@ std::string mutate(vh::Reader &rd, KVList &l)
       l.push_back(e);
       return "move-to-end";
     }
-    default:
+    case 7:
       return "none";
+    default:
+      // the other zero: an EQUAL value that is not bit-identical (the model map stays the same)
+      if (has_zero(l))
+      {
+        flip_zero_signs(rd, l);
+        return "flip-zero-sign";
+      }
+      plant_zero(rd, l);
+      return "plant-zero";
   }
 }
 
@@ -876,21 +988,33 @@ void check_pair(vh::Case &c,
     {
       bool eq = a.map == b.map, eq2 = b.map == a.map;
       VH_CHECK(c, eq == eq2, who << ": operator== is not symmetric");
+      // "equal as key-to-value maps" without any hash involved: the plain std::map comparison of
+      // the base class (keys by string ==, values by the == of their type)
+      const sdkc::OrderedAttributeMap &ka = a.map, &kb = b.map;
+      bool kv_eq                         = ka == kb;
+      VH_CHECK(c, kv_eq == (rel == Rel::kEqual),
+               who << ": the key-to-value maps compare " << (kv_eq ? "equal" : "unequal") << " but the model says "
+                   << (rel == Rel::kEqual ? "equal" : "unequal") << " (" << a.path << " vs " << b.path
+                   << "): " << show_map(to_model(a.map)) << " vs " << show_map(to_model(b.map)));
+      // equal sets always hash equally: driven by the model relation, not by the operator== under
+      // test (which itself looks at the cached hashes)
       if (rel == Rel::kEqual)
       {
+        VH_CHECK(c, a.map.GetHash() == b.map.GetHash() &&
+                        sdkc::GetHashForAttributeMap(a.map) == sdkc::GetHashForAttributeMap(b.map) &&
+                        sdkm::AttributeHashGenerator()(a.map) == sdkm::AttributeHashGenerator()(b.map) &&
+                        sdkm::MetricAttributesHash()(a.map) == sdkm::MetricAttributesHash()(b.map),
+                 who << ": equal sets hash differently (" << a.path << ": " << a.map.GetHash() << ", " << b.path
+                     << ": " << b.map.GetHash() << "): " << show_map(to_model(a.map)) << " vs "
+                     << show_map(to_model(b.map)));
         VH_CHECK(c, eq, who << ": model-equal sets compare unequal (" << a.path << " vs " << b.path << "): "
                             << show_map(to_model(a.map)) << " vs " << show_map(to_model(b.map)));
       }
-      else if (rel == Rel::kUnequal)
+      else
       {
         VH_CHECK(c, !eq, who << ": model-unequal sets compare equal (" << a.path << " vs " << b.path << "): "
                              << show_map(to_model(a.map)) << " vs " << show_map(to_model(b.map)));
       }
-      if (eq)
-        VH_CHECK(c, a.map.GetHash() == b.map.GetHash() &&
-                        sdkm::AttributeHashGenerator()(a.map) == sdkm::AttributeHashGenerator()(b.map),
-                 who << ": equal sets hash differently (" << a.path << ": " << a.map.GetHash() << ", " << b.path
-                     << ": " << b.map.GetHash() << ")");
     }
 }
 
@@ -904,7 +1028,8 @@ std::unique_ptr<sdkm::Aggregation> new_long_sum()
 // ================================================================================================
 VH_TARGET(attr_value, 12,
           "non-trivial when the re-spelling B is a permutation != identity of a list with >= 2 distinct "
-          "keys, or the allow-list removes a key of A; distinct = distinct (A, B, C, spellings, filter) text")
+          "keys, or the allow-list removes a key of A, or B equals A without being bit-identical (sign of "
+          "a zero); distinct = distinct (A, B, C, spellings, filter) text")
 {
   vh::Reader &rd = c.rd;
   GenStats st;
@@ -912,8 +1037,16 @@ VH_TARGET(attr_value, 12,
   unsigned nt     = 1 + rd.below(3);
   unsigned tkind[3];
   for (unsigned t = 0; t < 3; ++t)
-    tkind[t] = static_cast<unsigned>(rd.weighted({4, 3, 2}));
+    tkind[t] = static_cast<unsigned>(rd.weighted({4, 3, 2, 2}));
   KVList A = gen_list(rd, 8, false);
+  // a re-spelling that flips the sign of a zero needs a zero-bearing double value in A
+  bool planted = false;
+  for (unsigned t = 0; t < nt; ++t)
+    if (tkind[t] == 3 && !has_zero(A))
+    {
+      plant_zero(rd, A);
+      planted = true;
+    }
   KVList B = A;
   bool permuted = false;
   std::string howB;
@@ -928,9 +1061,14 @@ VH_TARGET(attr_value, 12,
         inject_shadowed(rd, B);
         howB += "shadow ";
         break;
-      default:
+      case 2:
         drop_shadowed(B);
         howB += "drop-shadowed ";
+        break;
+      default:
+        // equal values that are not bit-identical: 0.0 <-> -0.0 (scalars and array elements)
+        flip_zero_signs(rd, B);
+        howB += "flip-zero-sign ";
         break;
     }
   f11_sanitize(B);
@@ -981,7 +1119,8 @@ VH_TARGET(attr_value, 12,
     }
     VH_CHECK(c, pa && pb && pc, "GetOrSetDefault returned null");
     if (rab == Rel::kEqual)
-      VH_CHECK(c, pa == pb, "AttributesHashMap: A and its re-spelling B got two series");
+      VH_CHECK(c, pa == pb, "AttributesHashMap: A and its re-spelling B got two series: " << show_map(ma) << " vs "
+                                                                                          << show_map(mb));
     if (rab == Rel::kUnequal)
       VH_CHECK(c, pa != pb, "AttributesHashMap: model-unequal A and B share one series");
     if (rac == Rel::kEqual)
@@ -1000,7 +1139,7 @@ VH_TARGET(attr_value, 12,
   }
 
   bool filtered_out = f.removes_key_of(A);
-  c.nontrivial      = (permuted && distinct_keys(A).size() >= 2) || filtered_out;
+  c.nontrivial      = (permuted && distinct_keys(A).size() >= 2) || filtered_out || zero_sign_differs(ma, mb);
   c.tag(f.kind == 0 ? "filter-none" : f.kind == 1 ? "filter-default" : "filter-allow-list");
   if (permuted)
     c.tag("permuted");
@@ -1008,8 +1147,24 @@ VH_TARGET(attr_value, 12,
     c.tag("key-filtered-out");
   if (A.size() != distinct_keys(A).size() || B.size() != distinct_keys(B).size())
     c.tag("duplicate-keys");
-  c.tag("A-vs-B-" + std::string(rab == Rel::kEqual ? "equal" : rab == Rel::kGray ? "gray" : "unequal"));
-  c.tag("A-vs-C-" + std::string(rac == Rel::kEqual ? "equal" : rac == Rel::kGray ? "gray" : "unequal"));
+  c.tag("A-vs-B-" + std::string(rab == Rel::kEqual ? "equal" : "unequal"));
+  c.tag("A-vs-C-" + std::string(rac == Rel::kEqual ? "equal" : "unequal"));
+  if (zero_sign_differs(ma, mb))
+    c.tag("A-vs-B-equal-not-bit-identical(signed-zero)");
+  if (zero_sign_differs(ma, mc))
+    c.tag("A-vs-C-equal-not-bit-identical(signed-zero)");
+  if (planted)
+    c.tag("zero-planted");
+  {
+    bool scalar_z = false, array_z = false;
+    for (auto &kv : ma)
+      if (is_zero_bearing(kv.second))
+        (kv.second.index() == 5 ? scalar_z : array_z) = true;
+    if (scalar_z)
+      c.tag("zero-double-scalar");
+    if (array_z)
+      c.tag("zero-double-array-element");
+  }
   c.tag("mutation-" + howC);
   if (rac == Rel::kEqual && howC != "none" && f.kind == 2)
     c.tag("mutation-hidden-by-filter");
@@ -1158,6 +1313,16 @@ struct Acc
 };
 using Period = std::map<std::string, Acc>;
 
+void account(Period &p, const std::string &key, const KVMap &model, int64_t v, uint64_t bit)
+{
+  Acc &a = p[key];
+  a.sum += v;
+  a.count += 1;
+  a.mask |= bit;
+  if (a.count == 1)
+    a.attrs = model;
+}
+
 struct PV
 {
   int64_t sum    = 0;
@@ -1208,7 +1373,18 @@ bool is_overflow_attrs(const KVMap &m)
 struct LimitTags
 {
   bool overflow_seen = false, exact_report = false, at_limit_minus_1 = false, at_limit = false, above_limit = false;
-  bool stale_zero = false;
+  bool stale_zero = false, caller_overflow_set = false, exact_fold = false, exact_fold_merged = false;
+  bool negative_overflow = false;
+};
+
+// see check_limit_report: the "only the excess is folded" assertion for reports that went through
+// the temporal merge stays off until the coordinator has decided about C08-merge-folds-one-more
+const bool kHoldBack_merge_folds_one_more = false;  // finding fixed in /repo 57b5e59
+
+struct ReportKind
+{
+  bool single_interval = false;  // the report covers exactly one interval: a set is never split
+  bool direct          = false;  // the interval table itself is reported (no temporal merge in between)
 };
 
 // One report of one reader/collector against what was recorded in the period the report covers
@@ -1223,47 +1399,77 @@ void check_limit_report(vh::Case &c,
                         const std::set<std::string> &ever,
                         const std::vector<sdkm::PointDataAttributes> *points,
                         LimitTags &tags,
-                        bool single_interval = false)
+                        ReportKind rk = ReportKind())
 {
+  const bool single_interval = rk.single_interval;
   int64_t rec_sum = 0;
   uint64_t rec_n  = 0, rec_mask = 0;
+  bool caller_overflow = false;  // the caller itself recorded {otel.metrics.overflow=true} in this period
   for (auto &kv : recorded)
   {
     rec_sum += kv.second.sum;
     rec_n += kv.second.count;
     rec_mask |= kv.second.mask;
+    caller_overflow = caller_overflow || is_overflow_attrs(kv.second.attrs);
   }
+  if (caller_overflow)
+    tags.caller_overflow_set = true;
   if (!points)
   {
     VH_CHECK(c, rec_n == 0, label << ": nothing was reported although " << rec_n << " measurements over "
                                   << recorded.size() << " attribute sets were recorded in the period");
     return;
   }
-  VH_CHECK(c, points->size() <= limit, label << ": " << points->size() << " series reported, the cardinality limit is "
+  // limit 0: the overflow series itself is the one series that always exists (either-way region:
+  // the statement's "within the limit" cannot hold together with "total conserved")
+  const size_t bound = limit == 0 ? 1 : limit;
+  VH_CHECK(c, points->size() <= bound, label << ": " << points->size() << " series reported, the cardinality limit is "
                                              << limit << " (" << recorded.size() << " distinct sets recorded)");
   std::set<std::string> seen;
   int64_t got_sum = 0;
   uint64_t got_n = 0, got_mask = 0;
-  bool overflow = false;
+  bool overflow = false;  // an overflow series that the caller's own measurements do not explain
+  bool overflow_ambiguous = false;
+  size_t own    = 0;      // series under the attributes of a recorded set (other than the overflow attributes)
   for (auto &pa : *points)
   {
     KVMap attrs     = to_model(pa.attributes);
-    std::string key = canon_map(attrs);
+    std::string key = set_key(attrs);
     std::string what = label + " series " + show_map(attrs);
     VH_CHECK(c, seen.insert(key).second, what << ": reported twice in one collection");
     PV v = point_value(c, pa.point_data, kind, what);
     got_sum += v.sum;
     got_n += v.count;
     auto it = recorded.find(key);
-    if (it != recorded.end())
+    if (is_overflow_attrs(attrs))
     {
+      // the overflow series: the folded excess, plus whatever the caller recorded under exactly
+      // these attributes (the two share one series)
+      if (it == recorded.end() && !rk.direct && ever.count(key) && v.sum == 0 && v.count == 0)
+      {
+        // the caller's own overflow set of an earlier period, idle now - or an all-zero folded excess
+        tags.stale_zero    = true;
+        overflow_ambiguous = true;
+      }
+      else if (it == recorded.end())
+        overflow = true;
+      tags.overflow_seen = true;
+      if (v.sum < 0 || (v.sum == 0 && Instr::is_signed(kind)))
+        tags.negative_overflow = true;
+      if (bits)
+        got_mask |= static_cast<uint64_t>(v.sum);
+    }
+    else if (it != recorded.end())
+    {
+      ++own;
       // a series under its own attributes never holds more than was recorded for that set
       if (bits)
         VH_CHECK(c, (static_cast<uint64_t>(v.sum) & ~it->second.mask) == 0,
                  what << ": value 0x" << std::hex << v.sum << " contains measurements (bit = record number) that were "
                       << "not recorded for this set (0x" << it->second.mask << ")");
-      VH_CHECK(c, v.sum <= it->second.sum, what << ": reports " << v.sum << " but only " << it->second.sum
-                                                << " was recorded for this set");
+      if (!Instr::is_signed(kind))
+        VH_CHECK(c, v.sum <= it->second.sum, what << ": reports " << v.sum << " but only " << it->second.sum
+                                                  << " was recorded for this set");
       if (Instr::is_hist(kind))
         VH_CHECK(c, v.count <= it->second.count, what << ": reports " << v.count << " measurements but only "
                                                       << it->second.count << " were recorded for this set");
@@ -1275,13 +1481,6 @@ void check_limit_report(vh::Case &c,
                       << it->second.count << " measurements) was recorded for this set within "
                       << "the one interval the report covers (measurements of one set were split between its own "
                       << "series and another one)");
-      if (bits)
-        got_mask |= static_cast<uint64_t>(v.sum);
-    }
-    else if (is_overflow_attrs(attrs))
-    {
-      overflow           = true;
-      tags.overflow_seen = true;
       if (bits)
         got_mask |= static_cast<uint64_t>(v.sum);
     }
@@ -1321,7 +1520,7 @@ void check_limit_report(vh::Case &c,
     for (auto &pa : *points)
     {
       KVMap attrs = to_model(pa.attributes);
-      auto it     = recorded.find(canon_map(attrs));
+      auto it     = recorded.find(set_key(attrs));
       if (it == recorded.end())
         continue;
       PV v = point_value(c, pa.point_data, kind, label);
@@ -1331,18 +1530,52 @@ void check_limit_report(vh::Case &c,
     }
     tags.exact_report = true;
   }
-  else if (recorded.size() == limit)
-    tags.at_limit = true;
   else
-    tags.above_limit = true;
+  {
+    if (recorded.size() == limit)
+      tags.at_limit = true;
+    else
+      tags.above_limit = true;
+    // "the excess is folded": in a report that covers one interval only the excess is folded -
+    // limit-1 sets keep their own (complete, see above) series and the rest shares the overflow
+    // series; exactly `limit` sets may also all keep their series.  Not asserted when the caller's own
+    // {otel.metrics.overflow=true} set takes part, nor for reports that combine several intervals.
+    // Candidate finding C08-merge-folds-one-more: every path through the temporal merge (cumulative
+    // reader, several readers) re-inserts the interval table into a fresh limited table where the
+    // overflow entry takes a regular slot, so one MORE set than the excess loses its series (limit 2:
+    // no set at all keeps a series).  Until that is decided the assertion is limited to reports
+    // where the interval table is delivered as it is (single delta collector, side table).
+    bool assert_fold = rk.single_interval && limit >= 1 && !caller_overflow && !overflow_ambiguous;
+    if (assert_fold && !rk.direct)
+    {
+      if (vh::excluded("C08-merge-folds-one-more"))
+      {
+        vh::count_excluded("C08-merge-folds-one-more");
+        assert_fold = false;
+      }
+      else if (kHoldBack_merge_folds_one_more)
+        assert_fold = false;
+    }
+    if (assert_fold)
+    {
+      bool all_kept = recorded.size() == limit && own == limit && !overflow;
+      VH_CHECK(c, all_kept || (own == limit - 1 && overflow),
+               label << ": " << recorded.size() << " distinct sets were recorded in one interval under the limit "
+                     << limit << ", so " << (limit - 1) << " sets keep their own series and only the excess is "
+                     << "folded into the overflow series; reported: " << own << " own series"
+                     << (overflow ? " + the overflow series" : ", no overflow series"));
+      (rk.direct ? tags.exact_fold : tags.exact_fold_merged) = true;
+    }
+  }
 }
 }  // namespace
 
 // ================================================================================================
 VH_TARGET(instrument_series, 14,
           "non-trivial when some Add was spelled as a permutation != identity of a base list with >= 2 "
-          "distinct keys, or the view's allow-list removed one of its keys; distinct = distinct "
-          "(configuration, operation sequence) text")
+          "distinct keys, or a view's allow-list removed one of its keys, or one series received sets "
+          "that are equal without being bit-identical; distinct = distinct (configuration, operation "
+          "sequence) text")
 {
   vh::Reader &rd = c.rd;
   GenStats st;
@@ -1358,13 +1591,31 @@ VH_TARGET(instrument_series, 14,
   std::vector<std::string> universe;
   for (unsigned b = 0; b < nb; ++b)
   {
-    bases.push_back(gen_list(rd, 5, true));
+    bases.push_back(gen_list(rd, 5, false));
     for (auto &k : distinct_keys(bases.back()))
       if (std::find(universe.begin(), universe.end(), k) == universe.end())
         universe.push_back(k);
   }
   Filter f = gen_filter(rd, plan, universe);
-  std::string cfg = std::string(Instr::name(kind)) + " " + (with_view ? "view " + f.show() : "no-view") + " readers=";
+  // equal values that are not bit-identical: some base holds a zero-bearing double value and the
+  // Adds flip the signs of its zeros (drawn late: the earlier choices decode as before)
+  if (rd.chance(30))
+    plant_zero(rd, bases[rd.below(nb)]);
+  // (late draws) a second view "second" on the same instrument with an attribute filter of its own:
+  // a second metric stream whose series are keyed by ITS filtered sets; a second handle of the same
+  // instrument: its measurements are measurements on the one instrument
+  unsigned nv = 1;
+  FilterPlan plan2;
+  Filter f2;
+  if (with_view && rd.chance(20))
+  {
+    nv    = 2;
+    plan2 = gen_filter_plan(rd, false);
+    f2    = gen_filter(rd, plan2, universe);
+  }
+  bool two_handles = rd.chance(20);
+  std::string cfg  = std::string(Instr::name(kind)) + " " + (with_view ? "view " + f.show() : "no-view") +
+                    (nv == 2 ? " view2 " + f2.show() : "") + (two_handles ? " two-handles" : "") + " readers=";
   for (unsigned r = 0; r < nr; ++r)
     cfg += delta[r] ? "D" : "C";
   c.note(cfg + "\n");
@@ -1372,11 +1623,14 @@ VH_TARGET(instrument_series, 14,
     c.note("base" + std::to_string(b) + "=" + sg::show_kvlist(bases[b]) + "\n");
   if (!with_view)
     f.kind = 1;  // no view: the default processor keeps every key
+  const Filter *fs[2]        = {&f, &f2};
+  const char *const vname[2] = {"inst", "second"};
 
   sdkm::MeterProvider mp;
-  if (with_view)
+  for (unsigned vi = 0; with_view && vi < nv; ++vi)
   {
-    std::unique_ptr<sdkm::View> view{new sdkm::View("", "", "", sdkm::AggregationType::kDefault, nullptr, f.make(plan.rvalue))};
+    std::unique_ptr<sdkm::View> view{new sdkm::View(vi ? vname[vi] : "", "", "", sdkm::AggregationType::kDefault, nullptr,
+                                                    fs[vi]->make(vi ? plan2.rvalue : plan.rvalue))};
     std::unique_ptr<sdkm::InstrumentSelector> is{new sdkm::InstrumentSelector(Instr::type(kind), "inst", "u")};
     std::unique_ptr<sdkm::MeterSelector> ms{new sdkm::MeterSelector("c08", "1", "")};
     mp.AddView(std::move(is), std::move(ms), std::move(view));
@@ -1392,42 +1646,55 @@ VH_TARGET(instrument_series, 14,
   Instr inst;
   inst.kind = kind;
   inst.create(*meter, "inst");
+  Instr inst2;
+  inst2.kind = kind;
+  if (two_handles)
+    inst2.create(*meter, "inst");
+  bool used_handle[2] = {false, false};
 
-  // ---- model: per reader, what was recorded since its last collection, and since the start
-  std::vector<Period> pending(nr), total(nr);
+  // ---- model: per reader and view, what was recorded since the reader's last collection, and since the start
+  std::vector<std::vector<Period>> pending(nr, std::vector<Period>(nv)), total(nr, std::vector<Period>(nv));
   std::map<std::string, std::set<std::string>> spellings;  // series -> distinct list texts
   std::map<std::string, std::set<std::string>> by_keyset;  // key set -> distinct series
-  bool permuted_any = false, filtered_any = false;
+  std::map<std::string, std::set<std::string>> zero_forms;  // series -> distinct bit patterns of its set
+  bool permuted_any = false, filtered_any = false, views_differ = false;
   unsigned n_adds = 0, n_collects = 0;
 
   auto do_collect = [&](unsigned r, const std::string &label) {
-    std::vector<sdkm::PointDataAttributes> points;
-    unsigned metrics = 0;
+    std::map<std::string, std::vector<sdkm::PointDataAttributes>> by_name;
+    std::map<std::string, unsigned> metrics;
     readers[r]->Collect([&](sdkm::ResourceMetrics &rm) {
       for (auto &smd : rm.scope_metric_data_)
         for (auto &md : smd.metric_data_)
         {
-          ++metrics;
+          ++metrics[md.instrument_descriptor.name_];
           for (auto &pa : md.point_data_attr_)
-            points.push_back(pa);
+            by_name[md.instrument_descriptor.name_].push_back(pa);
         }
       return true;
     });
-    VH_CHECK(c, metrics <= 1, label << ": " << metrics << " metrics reported for one instrument with one view");
-    const Period &expect = delta[r] ? pending[r] : total[r];
+    for (auto &kv : metrics)
+      VH_CHECK(c, kv.second <= 1 && (kv.first == vname[0] || (nv == 2 && kv.first == vname[1])),
+               label << ": " << kv.second << " metrics named '" << vh::show(kv.first) << "' reported for one instrument with "
+                     << nv << " view(s)");
+    for (unsigned vi = 0; vi < nv; ++vi)
+    {
+    const std::string vlabel = nv == 2 ? label + " stream '" + vname[vi] + "'" : label;
+    const std::vector<sdkm::PointDataAttributes> &points = by_name[vname[vi]];
+    const Period &expect = delta[r] ? pending[r][vi] : total[r][vi];
     std::set<std::string> seen;
     for (auto &pa : points)
     {
       KVMap attrs      = to_model(pa.attributes);
-      std::string key  = canon_map(attrs);
-      std::string what = label + " series " + show_map(attrs);
+      std::string key  = set_key(attrs);
+      std::string what = vlabel + " series " + show_map(attrs);
       VH_CHECK(c, seen.insert(key).second, what << ": two points for one attribute set in one collection");
       PV v    = point_value(c, pa.point_data, kind, what);
       auto it = expect.find(key);
       if (it == expect.end())
       {
         // a delta reader may send an all-zero point for a series without new measurements
-        VH_CHECK(c, total[r].count(key) && v.sum == 0 && v.count == 0,
+        VH_CHECK(c, total[r][vi].count(key) && v.sum == 0 && v.count == 0,
                  what << ": no Add in this period produces these attributes after filtering (value " << v.sum << ")");
         continue;
       }
@@ -1438,10 +1705,11 @@ VH_TARGET(instrument_series, 14,
                                                       << it->second.count);
     }
     // every set with measurements since this reader's last collection must have its own series
-    for (auto &kv : pending[r])
-      VH_CHECK(c, seen.count(kv.first), label << ": no series for " << show_map(kv.second.attrs) << " although "
-                                              << kv.second.count << " measurements were recorded since the last collection");
-    pending[r].clear();
+    for (auto &kv : pending[r][vi])
+      VH_CHECK(c, seen.count(kv.first), vlabel << ": no series for " << show_map(kv.second.attrs) << " although "
+                                               << kv.second.count << " measurements were recorded since the last collection");
+    pending[r][vi].clear();
+    }
     ++n_collects;
   };
 
@@ -1458,11 +1726,13 @@ VH_TARGET(instrument_series, 14,
     if (Instr::is_signed(kind) && rd.chance(30))
       v = -v;
     bool ctx = rd.chance(30);
-    KVMap model;
+    KVMap model, model2;
     std::string text;
+    Instr &handle = two_handles && rd.coin() ? inst2 : inst;
+    used_handle[&handle == &inst2] = true;
     if (rd.chance(8))
     {
-      inst.record(v, nullptr, ctx);
+      handle.record(v, nullptr, ctx);
       text = "(no attributes)";
     }
     else
@@ -1472,7 +1742,7 @@ VH_TARGET(instrument_series, 14,
       bool permuted      = false;
       unsigned nt        = static_cast<unsigned>(rd.weighted({3, 4, 2}));
       for (unsigned t = 0; t < nt; ++t)
-        switch (rd.weighted({4, 3, 2, 2, 1}))
+        switch (rd.weighted({4, 3, 2, 2, 1, 3}))
         {
           case 0:
             permuted = stable_permute(rd, l) || permuted;
@@ -1486,44 +1756,49 @@ VH_TARGET(instrument_series, 14,
             std::string k = universe.empty() || rd.coin()
                                 ? near_key(rd, l.empty() ? std::string("k0") : l[rd.below(static_cast<uint32_t>(l.size()))].first)
                                 : universe[rd.below(static_cast<uint32_t>(universe.size()))];
-            l.insert(l.begin() + rd.below(static_cast<uint32_t>(l.size() + 1)),
-                     std::make_pair(k, normalized(sg::gen_value(rd))));
+            l.insert(l.begin() + rd.below(static_cast<uint32_t>(l.size() + 1)), std::make_pair(k, sg::gen_value(rd)));
             break;
           }
           case 3:
             mutate(rd, l);
             break;
-          default:
+          case 4:
             drop_shadowed(l);
             break;
+          default:
+            if (has_zero(l))
+              flip_zero_signs(rd, l);
+            break;
         }
-      for (auto &kv : l)
-        kv.second = normalized(kv.second);
       f11_sanitize(l);
       Spelling sp = gen_spelling(rd, l, st);
       model       = f.model(l);
+      if (nv == 2)
+        model2 = f2.model(l);
       {
         sg::Arena a;
         ListKV kv(l, sp, a);
-        inst.record(v, &kv, ctx);
+        handle.record(v, &kv, ctx);
         a.release();
       }
       text = show_spelled(l, sp);
       if (permuted && distinct_keys(base).size() >= 2)
         permuted_any = true;
-      if (f.removes_key_of(l))
+      if (f.removes_key_of(l) || (nv == 2 && f2.removes_key_of(l)))
         filtered_any = true;
     }
-    c.note("add " + std::to_string(v) + " " + text + "\n");
-    std::string key = canon_map(model);
+    c.note("add " + std::to_string(v) + (&handle == &inst2 ? " (handle2) " : " ") + text + "\n");
+    std::string key = set_key(model);
+    zero_forms[key].insert(canon_map(model));
     for (unsigned r = 0; r < nr; ++r)
-      for (Period *p : {&pending[r], &total[r]})
+      for (unsigned vi = 0; vi < nv; ++vi)
       {
-        Acc &a = (*p)[key];
-        a.sum += v;
-        a.count += 1;
-        a.attrs = model;
+        const KVMap &mv = vi ? model2 : model;
+        for (Period *p : {&pending[r][vi], &total[r][vi]})
+          account(*p, set_key(mv), mv, v, 0);
       }
+    if (nv == 2 && set_key(model) != set_key(model2))
+      views_differ = true;
     spellings[key].insert(text);
     std::string ks;
     for (auto &kv : model)
@@ -1535,10 +1810,17 @@ VH_TARGET(instrument_series, 14,
   for (unsigned r = 0; r < nr; ++r)
     do_collect(r, "final reader" + std::to_string(r) + (delta[r] ? "(delta)" : "(cumulative)"));
 
-  c.nontrivial = permuted_any || filtered_any;
+  bool zero_forms_any = false;
+  for (auto &kv : zero_forms)
+    zero_forms_any = zero_forms_any || kv.second.size() >= 2;
+  c.nontrivial = permuted_any || filtered_any || zero_forms_any;
   c.tag(std::string("inst-") + Instr::name(kind));
   c.tag(!with_view ? "no-view" : f.kind == 2 ? "view-allow-list" : "view-default-processor");
   c.tag("readers-" + std::to_string(nr));
+  if (nv == 2)
+    c.tag(views_differ ? "two-views-filtered-sets-differ" : "two-views");
+  if (used_handle[0] && used_handle[1])
+    c.tag("adds-through-two-handles");
   if (permuted_any)
     c.tag("permuted-add");
   if (filtered_any)
@@ -1550,6 +1832,12 @@ VH_TARGET(instrument_series, 14,
     near = near || kv.second.size() >= 2;
   if (many)
     c.tag("one-series-several-spellings");
+  for (auto &kv : zero_forms)
+    if (kv.second.size() >= 2)
+    {
+      c.tag("one-series-equal-not-bit-identical(signed-zero)");
+      break;
+    }
   if (near)
     c.tag("same-keys-different-values");
   if (spellings.size() >= 3)
@@ -1600,7 +1888,7 @@ KVList pool_set(unsigned style, unsigned i)
       }
       break;
     }
-    default:
+    case 3:
       if (i == 0)
         break;  // the empty set
       l.emplace_back("flag", MValue((i & 1) != 0));
@@ -1608,11 +1896,41 @@ KVList pool_set(unsigned style, unsigned i)
       if (i % 3 == 0)
         l.emplace_back("id", MValue(std::string("x\0y", 3) + std::to_string(i)));
       break;
+    default:
+    {
+      // +x / -x as a double scalar and as a double array element: for x == 0 the two signs are ONE
+      // set (equal values that are not bit-identical), for x > 0 they are two
+      double x = static_cast<double>(i / 4);
+      if (i % 2)
+        x = -x;
+      if (i % 4 < 2)
+        l.emplace_back("d", MValue(x));
+      else
+        l.emplace_back("d", MValue(std::vector<double>{1.5, x}));
+      break;
+    }
   }
   return l;
 }
 
-const char *const kPoolKeys[] = {"id", "a", "b", "flag", "k"};
+// the keys of a pool style (an allow-list that drops one of them merges raw sets)
+std::vector<std::string> pool_keys(unsigned style)
+{
+  switch (style)
+  {
+    case 0:
+    case 2:
+      return {"id"};
+    case 1:
+      return {"a", "b"};
+    case 3:
+      return {"flag", "k", "id"};
+    default:
+      return {"d"};
+  }
+}
+
+const char *const kPoolKeys[] = {"id", "a", "b", "flag", "k", "d", "otel.metrics.overflow"};
 
 struct CollectorModel
 {
@@ -1636,17 +1954,11 @@ struct LimitRun
 
   void recorded(const KVMap &model, int64_t v, uint64_t bit)
   {
-    std::string key = canon_map(model);
+    std::string key = set_key(model);
     ever.insert(key);
     for (auto &cm : cols)
       for (Period *p : {&cm.pending, &cm.total})
-      {
-        Acc &a = (*p)[key];
-        a.sum += v;
-        a.count += 1;
-        a.mask |= bit;
-        a.attrs = model;
-      }
+        account(*p, key, model, v, bit);
     ++records;
     dirty = true;
   }
@@ -1663,8 +1975,11 @@ struct LimitRun
     dirty = false;
     if (exp.size() + 1 > limit && (cm.delta ? cm.intervals >= 2 : cm.collects >= 1 && cm.intervals >= 1))
       multi_interval_overflow = true;
-    bool single_interval = cm.intervals <= 1 && (cm.delta || cm.collects == 0);
-    check_limit_report(c, label, limit, kind, bits, exp, ever, points, tags, single_interval);
+    ReportKind rk;
+    rk.single_interval = cm.intervals <= 1 && (cm.delta || cm.collects == 0);
+    // a single delta collector gets the interval table itself (no temporal merge)
+    rk.direct = cols.size() == 1 && cm.delta;
+    check_limit_report(c, label, limit, kind, bits, exp, ever, points, tags, rk);
     cm.pending.clear();
     cm.collects++;
     cm.intervals = 0;
@@ -1685,6 +2000,14 @@ struct LimitRun
       c.tag("merged-intervals>limit");
     if (tags.stale_zero)
       c.tag("zero-point-for-idle-series");
+    if (tags.caller_overflow_set)
+      c.tag("caller-records-overflow-attributes");
+    if (tags.exact_fold)
+      c.tag("only-the-excess-folded(direct-table)");
+    if (tags.exact_fold_merged)
+      c.tag("only-the-excess-folded(after-temporal-merge)");
+    if (tags.negative_overflow)
+      c.tag("overflow-series-total<=0(signed)");
   }
 };
 
@@ -1744,40 +2067,129 @@ void storage_collect(vh::Case &c, StorageRig &rig, LimitRun &run, unsigned k)
   VH_CHECK(c, deliveries <= 1, label << ": " << deliveries << " MetricData delivered by one Collect");
   run.check(c, k, label, got ? &points : nullptr);
 }
+
+// A series table driven directly through every entry point that has its own copy of the
+// "find, else overflow when full, else insert" logic: the three GetOrSetDefault overloads and the
+// three Set overloads (used the way the temporal merge uses them: Get, Merge, Set).  It is never
+// reset, so it is one interval: a set is never split and only the excess is folded.
+struct SideTable
+{
+  explicit SideTable(size_t limit) : table(limit) {}
+  sdkm::AttributesHashMap table;
+  Period recorded;
+  std::set<unsigned> paths;
+
+  static std::unique_ptr<sdkm::Aggregation> new_sum() { return std::unique_ptr<sdkm::Aggregation>(new sdkm::LongSumAggregation(false)); }
+
+  void record(unsigned path, const KVList &l, const Spelling &sp, const sdkm::AttributesProcessor *proc, const KVMap &model,
+              int64_t v, uint64_t bit)
+  {
+    paths.insert(path);
+    sg::Arena a;
+    ListKV kv(l, sp, a);
+    switch (path)
+    {
+      case 0:
+        table.GetOrSetDefault(kv, proc, new_sum)->Aggregate(v);
+        break;
+      case 1:
+      {
+        sdkm::MetricAttributes attr(kv, proc);
+        a.release();
+        table.GetOrSetDefault(attr, new_sum)->Aggregate(v);
+        break;
+      }
+      case 2:
+      {
+        sdkm::MetricAttributes attr(kv, proc);
+        a.release();
+        table.GetOrSetDefault(std::move(attr), new_sum)->Aggregate(v);
+        break;
+      }
+      default:
+      {
+        sdkm::MetricAttributes attr(kv, proc);
+        std::unique_ptr<sdkm::Aggregation> delta = new_sum();
+        delta->Aggregate(v);
+        sdkm::Aggregation *cur = table.Get(attr);
+        if (cur)
+          delta = cur->Merge(*delta);
+        if (path == 3)
+          table.Set(kv, proc, std::move(delta));
+        else if (path == 4)
+          table.Set(attr, std::move(delta));
+        else
+          table.Set(std::move(attr), std::move(delta));
+        break;
+      }
+    }
+    a.release();
+    account(recorded, set_key(model), model, v, bit);
+  }
+
+  void check(vh::Case &c, size_t limit, bool bits, const std::set<std::string> &ever, LimitTags &tags)
+  {
+    std::vector<sdkm::PointDataAttributes> points;
+    table.GetAllEnteries([&](const sdkm::MetricAttributes &attrs, sdkm::Aggregation &agg) {
+      sdkm::PointDataAttributes pa;
+      pa.attributes = attrs;
+      pa.point_data = agg.ToPoint();
+      points.push_back(pa);
+      return true;
+    });
+    VH_CHECK(c, table.Size() == points.size(), "side table: Size() " << table.Size() << " but " << points.size() << " entries");
+    ReportKind rk;
+    rk.single_interval = true;
+    rk.direct          = true;
+    check_limit_report(c, "side table (AttributesHashMap driven through GetOrSetDefault/Set overloads)", limit,
+                       /*i64 up-down*/ 2, bits, recorded, ever, recorded.empty() ? nullptr : &points, tags, rk);
+  }
+};
 }  // namespace
 
 VH_TARGET(storage_limits, 8,
-          "non-trivial when some report covers more distinct attribute sets than the limit allows "
-          "(within one interval or only after several intervals were combined); distinct = distinct "
+          "non-trivial when some report covers at least as many distinct (filtered) attribute sets as the "
+          "limit (within one interval or only after several intervals were combined); distinct = distinct "
           "(configuration, operation sequence) text")
 {
   vh::Reader &rd = c.rd;
   LimitRun run;
   // ---- configuration
-  run.limit        = 2 + rd.below(9);
-  run.kind         = static_cast<int>(rd.weighted({4, 2, 0, 0, 1, 1}));
+  static const size_t kLimits[] = {2, 3, 4, 5, 6, 7, 8, 9, 10, 1, 1, 0};
+  run.limit        = kLimits[rd.below(12)];
+  run.kind         = static_cast<int>(rd.weighted({4, 2, 1, 1, 1, 1}));
   run.bits         = !Instr::is_hist(run.kind) && rd.chance(40);
-  unsigned style   = rd.below(4);
+  unsigned style   = rd.below(5);
   bool filtering   = rd.chance(40);
   unsigned ncol    = 1 + (rd.chance(45) ? 1u : 0u);
   std::vector<bool> delta;
   for (unsigned k = 0; k < ncol; ++k)
     delta.push_back(!rd.coin());
-  unsigned pool    = static_cast<unsigned>(run.limit) - 1 + rd.below(static_cast<uint32_t>(run.limit) + 6);
-  bool single_delta = ncol == 1 && delta[0];
+  const unsigned lim = static_cast<unsigned>(run.limit);
+  unsigned pool      = (lim ? lim - 1 : 0) + rd.below(lim + 6);
+  bool single_delta  = ncol == 1 && delta[0];
   if (vh::excluded("F10") && !single_delta && pool + 1 > run.limit)
   {
-    // open finding F10: the temporal merge overwrites the overflow series; stay below the limit
+    // finding F10 (if re-opened): the temporal merge overwrites the overflow series; stay below the limit
     vh::count_excluded("F10");
-    pool = static_cast<unsigned>(run.limit) - 1;
+    pool = lim ? lim - 1 : 0;
   }
   if (pool == 0)
     pool = 1;
   unsigned n_ops = 3 + rd.below(60);
+  // (late configuration draws) the allow-list drops one of the pool's own keys: several raw sets
+  // become one filtered set, and the limit counts the filtered ones; the caller records the
+  // overflow attributes itself as pool set 0
+  std::vector<std::string> pkeys = pool_keys(style);
+  std::string dropped;
+  if (filtering && rd.chance(45))
+    dropped = pkeys[rd.below(static_cast<uint32_t>(pkeys.size()))];
+  bool caller_overflow = rd.chance(12);
   Filter f;
   f.kind = filtering ? 2 : 1;
   for (auto k : kPoolKeys)
-    f.allow.insert(k);
+    if (dropped != k)
+      f.allow.insert(k);
   for (bool d : delta)
   {
     CollectorModel cm;
@@ -1786,16 +2198,21 @@ VH_TARGET(storage_limits, 8,
   }
   StorageRig rig;
   rig.make(run.kind, run.limit, f.make(true), delta);
+  SideTable side(run.limit);
+  LimitTags side_tags;
   std::string cfg = "limit=" + std::to_string(run.limit) + " " + Instr::name(run.kind) + (run.bits ? " bit-values" : "") +
-                    " pool=" + std::to_string(pool) + "/style" + std::to_string(style) + (filtering ? " allow-list" : " default-processor") +
-                    " collectors=";
+                    " pool=" + std::to_string(pool) + "/style" + std::to_string(style) +
+                    (filtering ? " allow-list" + (dropped.empty() ? std::string() : "-without-" + dropped) : " default-processor") +
+                    (caller_overflow ? " set0=overflow-attributes" : "") + " collectors=";
   for (bool d : delta)
     cfg += d ? "D" : "C";
   c.note(cfg + "\n");
 
   GenStats st;
   bool stop_records = false;
-  auto record_one   = [&](unsigned si, int64_t v, bool fancy) {
+  std::set<std::string> raw_ever;
+  std::map<std::string, std::set<std::string>> zero_forms;
+  auto record_one = [&](unsigned si, int64_t v, bool fancy, unsigned path) {
     if (run.bits)
     {
       if (run.records >= 50)
@@ -1803,6 +2220,13 @@ VH_TARGET(storage_limits, 8,
       v = int64_t(1) << run.records;
     }
     KVList l = pool_set(style, si);
+    if (caller_overflow && si == 0)
+      l = KVList{{"otel.metrics.overflow", MValue(true)}};
+    {
+      KVMap raw;
+      sg::apply_last_wins(raw, l);
+      raw_ever.insert(set_key(raw));
+    }
     if (fancy)
     {
       // other spellings of the same set: order, a shadowed duplicate, a key the allow-list removes
@@ -1813,22 +2237,26 @@ VH_TARGET(storage_limits, 8,
       if (filtering && rd.coin())
         l.insert(l.begin() + rd.below(static_cast<uint32_t>(l.size() + 1)),
                  std::make_pair(std::string(rd.coin() ? "noise" : "id#J"), MValue(static_cast<int32_t>(rd.u8()))));
+      path = rd.below(6);
     }
     f11_sanitize(l);
     KVMap model = f.model(l);
+    Spelling sp;
+    if (fancy)
+      sp = gen_spelling(rd, l, st);
     if (model.empty() && rd.coin())
       rig.record(run.kind, v, nullptr);
     else
     {
-      Spelling sp;
-      if (fancy)
-        sp = gen_spelling(rd, l, st);
       sg::Arena a;
       ListKV kv(l, sp, a);
       rig.record(run.kind, v, &kv);
       a.release();
     }
-    run.recorded(model, v, run.bits ? static_cast<uint64_t>(v) : 0);
+    uint64_t bit = run.bits ? static_cast<uint64_t>(v) : 0;
+    run.recorded(model, v, bit);
+    side.record(path, l, sp, rig.proc.get(), model, v, bit);
+    zero_forms[set_key(model)].insert(canon_map(model));
   };
 
   for (unsigned op = 0; op < n_ops && (op < 3 || !rd.exhausted()); ++op)
@@ -1840,16 +2268,22 @@ VH_TARGET(storage_limits, 8,
     {
       unsigned si = rd.below(pool);
       int64_t v   = static_cast<int64_t>(rd.weighted({1, 5, 1}) == 0 ? 0 : 1 + rd.below(9));
+      if (Instr::is_signed(run.kind) && rd.chance(40))
+        v = -v;
       c.note("rec s" + std::to_string(si) + " " + std::to_string(v) + "\n");
-      record_one(si, v, true);
+      record_one(si, v, true, 0);
     }
     else if (what == 1)
     {
       // burst: each set of a range once
       unsigned from = rd.below(pool), n = 1 + rd.below(pool);
-      c.note("burst s" + std::to_string(from) + "+" + std::to_string(n) + "\n");
+      bool neg      = Instr::is_signed(run.kind) && rd.chance(40);
+      c.note("burst s" + std::to_string(from) + "+" + std::to_string(n) + (neg ? " negative" : "") + "\n");
       for (unsigned i = 0; i < n; ++i)
-        record_one((from + i) % pool, 1 + static_cast<int64_t>(i % 5), false);
+      {
+        int64_t v = 1 + static_cast<int64_t>(i % 5);
+        record_one((from + i) % pool, neg ? -v : v, false, (from + i) % 6);
+      }
     }
     else
     {
@@ -1860,7 +2294,7 @@ VH_TARGET(storage_limits, 8,
       storage_collect(c, rig, run, k);
       if (vh::excluded("F9") && !stop_records)
       {
-        // open finding F9: after the first Collect the interval table forgets the explicit limit
+        // finding F9 (if re-opened): after the first Collect the interval table forgets the explicit limit
         vh::count_excluded("F9");
         stop_records = true;
       }
@@ -1868,21 +2302,39 @@ VH_TARGET(storage_limits, 8,
   }
   for (unsigned k = 0; k < ncol; ++k)
     storage_collect(c, rig, run, k);
+  side.check(c, run.limit, run.bits, run.ever, side_tags);
 
   c.nontrivial = run.tags.above_limit || run.tags.at_limit;
   c.tag("limit-" + std::to_string(run.limit));
   c.tag(std::string("inst-") + Instr::name(run.kind));
+  c.tag("pool-style-" + std::to_string(style));
   c.tag(ncol == 1 ? (delta[0] ? "single-delta-collector" : "single-cumulative-collector")
                   : (delta[0] != delta[1] ? "collectors-mixed" : delta[0] ? "collectors-DD" : "collectors-CC"));
   if (run.bits)
     c.tag("bit-values");
   if (filtering)
     c.tag("allow-list");
+  if (!dropped.empty())
+    c.tag("allow-list-merges-raw-sets");
+  if (raw_ever.size() + 1 > run.limit && run.ever.size() + 1 <= run.limit && run.limit >= 2)
+    c.tag("raw-distinct>=limit>filtered-distinct");
+  for (auto &kv : zero_forms)
+    if (kv.second.size() >= 2)
+    {
+      c.tag("one-series-equal-not-bit-identical(signed-zero)");
+      break;
+    }
   unsigned maxc = 0;
   for (auto &cm : run.cols)
     maxc = std::max(maxc, cm.collects);
   c.tag("cycles-" + std::to_string(maxc));
   run.emit_tags(c);
+  if (side_tags.above_limit || side_tags.at_limit)
+    c.tag("side-table-distinct>=limit");
+  if (side_tags.exact_fold)
+    c.tag("side-table-only-the-excess-folded");
+  if (side.paths.size() >= 4)
+    c.tag("side-table-4+entry-points");
 }
 
 // ================================================================================================
@@ -1960,7 +2412,7 @@ VH_TARGET(provider_default_limit, 1,
   vh::Reader &rd = c.rd;
   LimitRun run;
   run.limit      = 2000;
-  run.kind       = static_cast<int>(rd.weighted({4, 2}));
+  run.kind       = static_cast<int>(rd.weighted({4, 2, 1, 1}));
   bool with_view = rd.coin();
   unsigned ncol  = 1 + (rd.chance(35) ? 1u : 0u);
   std::vector<bool> delta;
@@ -2006,6 +2458,8 @@ VH_TARGET(provider_default_limit, 1,
       n    = std::min(n, 1999u);
     }
     int64_t v = 1 + rd.below(5);
+    if (Instr::is_signed(run.kind) && rd.chance(40))
+      v = -v;
     c.note("cycle" + std::to_string(cy) + ": add " + std::to_string(v) + " to sets [" + std::to_string(from) + "," +
            std::to_string(from + n) + ")");
     rig.add_range(run, from, n, v);
